@@ -761,6 +761,19 @@ func (x *Exec) siteAsserts(st *State, fr *Frame, kind, arg string, bind map[stri
 			if loopN != 0 && !x.inLoop(fr, loopN) {
 				continue
 			}
+			// itercalls/iterres count from the entry of the innermost enclosing loop iteration
+			if kind != "backedge" {
+				x.iterBase = 0
+				best := -1
+				for _, l := range x.loopsOf(fr.fn) {
+					if l.body[fr.block] {
+						if cut := fr.cut[l.header]; cut != nil && (best < 0 || len(l.body) < best) {
+							best = len(l.body)
+							x.iterBase = cut.recBase
+						}
+					}
+				}
+			}
 			env := x.frameEnv(st, fr)
 			for k, v := range bind {
 				env.vars[k] = v
